@@ -461,7 +461,9 @@ def finish(prop, tier, seed, started, coverage, mismatches, explains=None, assum
         path = os.path.join(replay_dir, h + ".json")
         with open(path, "w") as f:
             json.dump({"property": prop, "engine": "progmc", "case": m.case.key, "kind": m.kind,
-                       "files": {"main.capy": m.case.source_alone()}, "accept": m.case.accept,
+                       "files": m.case.meta.get("files") or {"main.capy": m.case.meta.get("standalone") or m.case.source_alone()},
+                       "standalone": bool(m.case.meta.get("standalone") or m.case.meta.get("files")),
+                       "expected_exit": m.case.meta.get("exit"), "accept": m.case.accept,
                        "expected_stdout_of_case": m.case.expected, "fault": m.case.fault,
                        "observed": m.observed, "detail": m.detail, "meta": m.case.meta}, f, indent=1)
         lines.append(f"VIOLATION property={prop} replay={path}  # {m.kind} :: {m.case.key} {m.detail[:120]!r}")
@@ -498,6 +500,14 @@ def replay(path):
     res = run_capy(os.path.join(root, "job"), rec["files"], mod)
     print(json.dumps(res.summary(), indent=1))
     exp = rec.get("expected_stdout_of_case")
+    if rec.get("standalone"):
+        got = res.run_out.decode("utf8", "replace")
+        ok = (not res.errors and not res.panicked and (exp is None or got.startswith(exp))
+              and (rec.get("expected_exit") is None or res.run_rc == rec["expected_exit"]))
+        if not rec.get("accept", True):
+            ok = bool(res.errors) and not res.panicked
+        print("REPLAY: no failure reproduced" if ok else "REPLAY: reproduced (see the summary above)")
+        sys.exit(0 if ok else 1)
     parts = split_output(res.run_out)
     if rec.get("accept", True):
         if res.errors or res.panicked or res.internal_error or res.compile_rc != 0:
